@@ -85,6 +85,7 @@ type workload struct {
 	memTable     uint64
 	settle       bool         // wait for the file system to go quiet after every commit
 	flushAfter   map[int]bool // explicit DB().Flush() after the commit of these steps (a sync point)
+	journal      bool         // StoreConfig.StateChangeJournalEnabled: every commit also journals the state keys it touched (indexer partition)
 	compactAfter map[int]bool // explicit CompactAll() after the commit of these steps (what MaybeCompact does periodically)
 }
 
@@ -276,6 +277,8 @@ func newWorkload(seed, index uint64) *workload {
 	for _, c := range w.eras {
 		w.maxHeight = max(w.maxHeight, c.top+1)
 	}
+	// drawn last so that everything else of the workload is unchanged by it
+	w.journal = r.IntN(2) == 0
 	return w
 }
 
@@ -284,11 +287,12 @@ func (w *workload) String() string {
 	if len(w.eras) > 1 {
 		d += fmt.Sprintf(" rollback->%d then %d new", w.eras[1].forkAt, w.eras[1].top-w.eras[1].forkAt)
 	}
-	return d + fmt.Sprintf(" memtable=%dK settle=%v)", w.memTable>>10, w.settle)
+	return d + fmt.Sprintf(" memtable=%dK settle=%v journal=%v)", w.memTable>>10, w.settle, w.journal)
 }
 
-func storeConfig() lib.Config {
+func storeConfig(w *workload) lib.Config {
 	cfg := lib.DefaultConfig()
+	cfg.StoreConfig.StateChangeJournalEnabled = w.journal
 	cfg.StoreConfig.LSSCompactionInterval = 0
 	cfg.StoreConfig.IndexByAccount = true
 	return cfg
@@ -446,7 +450,61 @@ func checkIndexed(st *store.Store, b *block) error {
 	return nil
 }
 
+// checkJournal: with the state change journal enabled, the commit of block b also records the state keys it wrote or
+// deleted; StateChangeKeys(h) must report exactly those (and "not available" when journaling is off)
+func checkJournal(r lib.RIndexerI, b *block, journal bool, where string) error {
+	keys, available, err := r.StateChangeKeys(b.h, nil)
+	if err != nil {
+		return fmt.Errorf("%s: StateChangeKeys(%d): %v", where, b.h, err)
+	}
+	if !journal {
+		if available || len(keys) != 0 {
+			return fmt.Errorf("%s: StateChangeKeys(%d) reports a journal (%d keys) although journaling is off", where, b.h, len(keys))
+		}
+		return nil
+	}
+	if !available {
+		return fmt.Errorf("%s: StateChangeKeys(%d) reports 'not available': the state change journal of a committed height is missing", where, b.h)
+	}
+	want := map[string]bool{}
+	for _, o := range b.ops {
+		want[string(o.Key)] = true
+	}
+	got := map[string]bool{}
+	for _, k := range keys {
+		if got[string(k)] {
+			return fmt.Errorf("%s: StateChangeKeys(%d) lists key %x twice", where, b.h, k)
+		}
+		got[string(k)] = true
+	}
+	for k := range want {
+		if !got[k] {
+			return fmt.Errorf("%s: StateChangeKeys(%d) has %d keys and misses %x; block %d touched %d keys", where, b.h, len(got), k, b.h, len(want))
+		}
+	}
+	for k := range got {
+		if !want[k] {
+			return fmt.Errorf("%s: StateChangeKeys(%d) lists %x which block %d did not touch", where, b.h, k, b.h)
+		}
+	}
+	// the prefix-restricted form used by the indexer blob code
+	sub, _, err := r.StateChangeKeys(b.h, lib.JoinLenPrefix([]byte("acc")))
+	nAcc := 0
+	for k := range want {
+		if bytes.HasPrefix([]byte(k), lib.JoinLenPrefix([]byte("acc"))) {
+			nAcc++
+		}
+	}
+	if err != nil || len(sub) != nAcc {
+		return fmt.Errorf("%s: StateChangeKeys(%d, prefix acc) = %d keys (%v), block %d touched %d such keys", where, b.h, len(sub), err, b.h, nAcc)
+	}
+	return nil
+}
+
 func checkAbsent(st *store.Store, h uint64) error {
+	if keys, available, e := st.StateChangeKeys(h, nil); e == nil && (available || len(keys) != 0) {
+		return fmt.Errorf("state change journal of height %d is visible", h)
+	}
 	got, err := st.GetBlockByHeight(h)
 	if err == nil && got != nil && got.BlockHeader != nil && (len(got.BlockHeader.Hash) != 0 || got.BlockHeader.Height != 0) {
 		return fmt.Errorf("block of height %d is visible", h)
@@ -500,7 +558,7 @@ func verify(fs vfs.FS, w *workload, alts []alt) (hp uint64, verr error) {
 	store.VerifPurgeBlockCache()
 	defer store.VerifPurgeBlockCache()
 	log := &crashfs.Log{}
-	st, err := store.VerifOpenWithFS(fs, "db", w.memTable, storeConfig(), log)
+	st, err := store.VerifOpenWithFS(fs, "db", w.memTable, storeConfig(w), log)
 	if err != nil {
 		return 0, fmt.Errorf("re-open failed: %v", err)
 	}
@@ -555,9 +613,13 @@ func verify(fs vfs.FS, w *workload, alts []alt) (hp uint64, verr error) {
 			return hp, fmt.Errorf("NewReadOnly(%d): %v", v, e)
 		}
 		g, e3 := scanState(ro)
+		je := checkJournal(ro, c.blocks[v], w.journal, fmt.Sprintf("store re-opened at %d, read-only view as of %d", hp, v))
 		ro.Discard()
 		if e3 != nil {
 			return hp, e3
+		}
+		if je != nil {
+			return hp, je
 		}
 		if d := diffState(g, c.states[v]); d != "" {
 			return hp, fmt.Errorf("historical state as of %d (store re-opened at %d) differs: %s", v, hp, d)
@@ -569,6 +631,9 @@ func verify(fs vfs.FS, w *workload, alts []alt) (hp uint64, verr error) {
 	for h := uint64(1); h <= hp; h++ {
 		if err := checkIndexed(st, c.blocks[h]); err != nil {
 			return hp, fmt.Errorf("store re-opened at %d: %v", hp, err)
+		}
+		if err := checkJournal(st, c.blocks[h], w.journal, fmt.Sprintf("store re-opened at %d", hp)); err != nil {
+			return hp, err
 		}
 		onChain[c.blocks[h]] = true
 		for _, tx := range c.blocks[h].txs {
@@ -638,6 +703,9 @@ func verify(fs vfs.FS, w *workload, alts []alt) (hp uint64, verr error) {
 	store.VerifPurgeBlockCache()
 	if err := checkIndexed(st, nb); err != nil {
 		return hp, fmt.Errorf("continuing from %d: %v", hp, err)
+	}
+	if err := checkJournal(st, nb, w.journal, fmt.Sprintf("continuing from %d", hp)); err != nil {
+		return hp, err
 	}
 	return hp, nil
 }
@@ -770,6 +838,7 @@ func (r *runner) hook(op crashfs.Op) {
 		}
 		c.Class(pclass)
 		c.Class("workload=" + r.w.kind)
+		c.ClassIf(r.w.journal, "state-change-journal=on")
 		c.Class(fmt.Sprintf("op=%s/%s", op.Kind, op.FileClass()))
 		if ph.rollback != nil {
 			c.Class("inside-Rollback()-call")
@@ -805,7 +874,7 @@ func settleFS(fs *crashfs.FS) {
 func play(w *workload, r *runner) error {
 	fs := crashfs.New()
 	open := func() (*store.Store, error) {
-		st, e := store.VerifOpenWithFS(fs, "db", w.memTable, storeConfig(), &crashfs.Log{})
+		st, e := store.VerifOpenWithFS(fs, "db", w.memTable, storeConfig(w), &crashfs.Log{})
 		if e != nil {
 			return nil, fmt.Errorf("open: %v", e)
 		}
